@@ -115,7 +115,7 @@ def run_raw(jobs, timeout=30.0, shards=None, env=None):
                 rc = w.p.wait()
                 w.p = None
                 if w.done < len(w.jobs):
-                    results[w.jobs[w.done]["id"]] = {"died": rc}
+                    results[w.jobs[w.done]["id"]] = json.dumps({"died": rc}).encode()
                     rest = w.jobs[w.done + 1:]
                     if rest:
                         w.assign(rest)
@@ -130,19 +130,15 @@ def run_raw(jobs, timeout=30.0, shards=None, env=None):
                 line, w.buf = w.buf.split(b"\n", 1)
                 if not line.strip():
                     continue
-                try:
-                    res = json.loads(line)
-                except json.JSONDecodeError:
-                    res = {"harness_error": "bad driver output"}
                 if w.done < len(w.jobs):
-                    results[w.jobs[w.done]["id"]] = res
+                    results[w.jobs[w.done]["id"]] = line
                     w.done += 1
             if w.done >= len(w.jobs) and w in active:
                 active.remove(w)
         for w in list(active):
             if now - w.last > timeout and w.done < len(w.jobs):
                 w.stop()
-                results[w.jobs[w.done]["id"]] = {"timeout": True}
+                results[w.jobs[w.done]["id"]] = b'{"timeout":true}'
                 rest = w.jobs[w.done + 1:]
                 if rest:
                     w.assign(rest)
@@ -153,14 +149,66 @@ def run_raw(jobs, timeout=30.0, shards=None, env=None):
     return results
 
 
+class Res:
+    """one driver answer, decoded lazily: the verdict flags are found by byte search (the
+    driver writes compact JSON, and inside JSON strings every quote is escaped, so the
+    patterns below can only match real top-level fields)"""
+
+    __slots__ = ("raw", "_d")
+
+    def __init__(self, raw):
+        self.raw = raw
+        self._d = None
+
+    def data(self):
+        if self._d is None:
+            try:
+                self._d = json.loads(self.raw)
+            except json.JSONDecodeError:
+                self._d = {"harness_error": "bad driver output"}
+        return self._d
+
+    def has(self, pat):
+        return pat in self.raw
+
+    # dict-like access (decodes)
+    def get(self, k, default=None):
+        return self.data().get(k, default)
+
+    def __contains__(self, k):
+        return k in self.data()
+
+    def __getitem__(self, k):
+        return self.data()[k]
+
+    def items(self):
+        return self.data().items()
+
+    @property
+    def parsed(self):
+        return b'"parse1":"ok"' in self.raw
+
+    @property
+    def rejected(self):
+        return b'"parse1":"err"' in self.raw
+
+    @property
+    def clean(self):
+        """accepted and nothing to report"""
+        r = self.raw
+        return (b'"parse1":"ok"' in r and b'"parse2":"ok"' in r and b'"ast_eq":true' in r and b'"comments_eq":true' in r
+                and b'"idempotent":true' in r and b'"imports_eq":true' in r)
+
+
 def fmt_many(sources, trees=False, keep_text=True, timeout=30.0, use_cache=True):
-    """[src] -> [result] (same order).  With trees=True a cached result without trees is
-    re-asked."""
+    """[src] -> [Res] (same order).  `trees` may be a bool or a list of bools."""
     out = [None] * len(sources)
     jobs = []
     ask = {}
+    tl = trees if isinstance(trees, (list, tuple)) else None
     for i, s in enumerate(sources):
-        key = (s, bool(trees))
+        tr = bool(tl[i]) if tl is not None else bool(trees)
+        key = (s, tr)
         if use_cache and key in _CACHE:
             out[i] = _CACHE[key]
             STATS["cache_hits"] += 1
@@ -169,11 +217,12 @@ def fmt_many(sources, trees=False, keep_text=True, timeout=30.0, use_cache=True)
             ask[key].append(i)
             continue
         ask[key] = [i]
-        jobs.append({"id": len(jobs), "op": "fmt", "src": s, "keep_text": keep_text, "trees": bool(trees)})
+        jobs.append({"id": len(jobs), "op": "fmt", "src": s, "keep_text": keep_text, "trees": tr})
     keys = list(ask.keys())
     res = run_raw(jobs, timeout=timeout)
     for jid, key in enumerate(keys):
-        r = res.get(jid, {"harness_error": "no result"})
+        raw = res.get(jid)
+        r = Res(raw if raw is not None else b'{"harness_error":"no result"}')
         if use_cache and len(key[0]) < 4000:
             _CACHE[key] = r
         for i in ask[key]:
